@@ -30,13 +30,13 @@ DIFFERENTIAL=0; BL=""
 if [ "$BASE" != "HEAD" ] && [ "$(git -C /repo rev-parse "$BASE")" != "$(git -C /repo rev-parse HEAD)" ]; then
   DIFFERENTIAL=1
   # the helpers of the base commit are the reference for rename detection and inlining of new helpers
-  "$HERE/bin/ucfgcheck" -repo "$W/wt" -write-baseline > "$W/baseline.txt" 2>/dev/null
+  "${UCFGCHECK:-$HERE/bin/ucfgcheck}" -repo "$W/wt" -write-baseline > "$W/baseline.txt" 2>/dev/null
   BL="-baseline $W/baseline.txt"
-  "$HERE/bin/ucfgcheck" $BL -repo "$W/wt" -verif "$W/verif" -prop "$PROPS" -tier quick -nocontrols 2>&1 | grep -E "$FILTER" | sed "s|$W/wt/||g" > "$W/base.out"
+  "${UCFGCHECK:-$HERE/bin/ucfgcheck}" $BL -repo "$W/wt" -verif "$W/verif" -prop "$PROPS" -tier quick -nocontrols 2>&1 | grep -E "$FILTER" | sed "s|$W/wt/||g" > "$W/base.out"
 fi
 git -C "$W/wt" apply "$PATCH" || { echo "patch does not apply to $BASE"; exit 3; }
 (cd "$W/wt" && go build ./... && go test -vet=off -count=1 ./... >/dev/null 2>&1) || { echo "patched tree does not build or fails tests"; exit 3; }
-"$HERE/bin/ucfgcheck" $BL -repo "$W/wt" -verif "$W/verif" -prop "$PROPS" -tier quick -nocontrols 2>&1 | grep -E "$FILTER" | sed "s|$W/wt/||g" > "$W/patched.out"
+"${UCFGCHECK:-$HERE/bin/ucfgcheck}" $BL -repo "$W/wt" -verif "$W/verif" -prop "$PROPS" -tier quick -nocontrols 2>&1 | grep -E "$FILTER" | sed "s|$W/wt/||g" > "$W/patched.out"
 if [ $DIFFERENTIAL -eq 0 ]; then
   cut -c1-420 "$W/patched.out"
   exit 0
